@@ -16,6 +16,14 @@ pub mod c09_model;
 pub mod c10;
 pub mod c11;
 pub mod c12;
+pub mod c14;
+pub mod c14_cmp;
+pub mod c14_model;
+pub mod c15;
+pub mod c15_merge;
+pub mod c15_termdict;
+pub mod c16;
+pub mod c16_sem;
 pub mod c17;
 pub mod c18;
 pub mod c18_proc;
@@ -24,7 +32,7 @@ pub mod c19_gen;
 pub mod c20;
 
 pub fn all() -> Vec<PropDef> {
-    vec![c01::def(), c02::def(), c03::def(), c04::def(), c05::def(), c06::def(), c07::def(), c08::def(), c09::def(), c10::def(), c11::def(), c12::def(), c17::def(), c18::def(), c19::def(), c20::def()]
+    vec![c01::def(), c02::def(), c03::def(), c04::def(), c05::def(), c06::def(), c07::def(), c08::def(), c09::def(), c10::def(), c11::def(), c12::def(), c14::def(), c15::def(), c16::def(), c17::def(), c18::def(), c19::def(), c20::def()]
 }
 
 /// entry point of `tvv child …` (used by the checks that need process isolation)
@@ -32,6 +40,7 @@ pub fn child_main(args: &[String]) -> i32 {
     match args.first().map(|s| s.as_str()) {
         Some("c11") => c11::child_main(&args[1..]),
         Some("c18") => c18::child_main(args),
+        Some(a) if a.starts_with("c16-") => c16::child_main(args),
         _ => 2,
     }
 }
